@@ -258,6 +258,12 @@ func visitInstr(fr *frame, instr ssa.Instruction) continuation {
 		fr.set(instr, fr.get(instr.X)) // (can't fail)
 
 	case *ssa.Convert:
+		if b, ok := instr.Type().Underlying().(*types.Basic); ok && b.Kind() == types.UnsafePointer {
+			if _, isPtr := instr.X.Type().Underlying().(*types.Pointer); isPtr {
+				fr.set(instr, i.addrToUnsafe(fr, instr))
+				break
+			}
+		}
 		fr.set(instr, conv(i, instr.Type(), instr.X.Type(), fr.get(instr.X)))
 
 	case *ssa.SliceToArrayPointer:
